@@ -370,7 +370,7 @@ func c20Single(c *fw.Ctx, s c20Spec) *fw.Violation {
 
 func init() {
 	nf := len(c20Families())
-	fw.Register(&fw.Prop{
+	register(&fw.Prop{
 		ID: "C20",
 		Rule: "one-dimensional sweeps across each limit on the real binary in a child process under ulimit -v: recursion depth for 13 shapes (inside a right-nested expression, inside literals / loops / conditionals, direct, mutual of two and three, through a match body, an argument, a for-in body, from a pattern rule, from BEGINFILE, entered from inside a match arm, through two nested arms, through block-bodied arms), array store index directly, through a nested pending path and on an array that already has elements, printf width of both signs, JSON array and object nesting (read only, printed whole + serialised with json(), under programs of BEGIN / END rules only, under a root selector); " +
 			"the refusal point is found by bisection, must lie in the documented range (a few thousand frames; about a million; exactly 65536; the decoder's limit) and the sweep checks monotonicity: the exact value below it, an ordinary runtime / JSON error with the earlier output kept and a small exit status from it on; " +
